@@ -97,7 +97,7 @@ def pick_ty(rng, g):
 
 def shim_cases(rng, tier):
     """(line, graph) for the six entry points under random schedules"""
-    ng = 600 if tier == "quick" else 4000
+    ng = 600 if tier == "quick" else 2000
     maxn = 13 if tier == "quick" else 26
     out = []
     for i in range(ng):
@@ -120,7 +120,7 @@ def shim_cases(rng, tier):
                 k = rng.choice([1, 1, 2, 2, 3, 4])
                 out.append((tcase(alg, k, ty, sc, b, g), g))
     # extra E-level pairs for the signed variant only (cheap): more schedules per graph
-    extra = 6000 if tier == "quick" else 40000
+    extra = 6000 if tier == "quick" else 25000
     for i in range(extra):
         g, _ = X.gen_graph(rng, maxn)
         for _ in range(3):
@@ -130,7 +130,7 @@ def shim_cases(rng, tier):
 
 
 def real_cases(rng, tier, tsan=False):
-    ng = (100 if tier == "quick" else 600) if not tsan else 80
+    ng = (100 if tier == "quick" else 300) if not tsan else 80
     maxn = (22 if tier == "quick" else 40) if not tsan else 26
     out = []
     for i in range(ng):
@@ -359,7 +359,7 @@ def shim_experiment(c, exe, lines, tier, refok, report, opts, label, count=True)
                 report("corr", "correspondence mcb_sva_signed_tbb vs extracted ParSignedModel (exact cycles and schedule bits consumed, under the same "
                        "schedule and the recovered root/pointer order) no longer checks; the implementation's answer still satisfies the property text", r2, False)
         ans = parse_answer(io[i])
-        if refok and ans and not why and n <= (14 if tier == "quick" else 18) and len(es) <= 40 and (d["alg"] in EXACT) and (i % (3 if tier == "quick" else 2) == 0):
+        if refok and ans and not why and n <= (14 if tier == "quick" else 18) and len(es) <= 40 and (d["alg"] in EXACT) and (i % (3 if tier == "quick" else 5) == 0):
             refq.append(i)
     c.extra["signed_tbb_exact_agreements"] = c.extra.get("signed_tbb_exact_agreements", 0) + agree
     c.extra["signed_tbb_exact_runs"] = c.extra.get("signed_tbb_exact_runs", 0) + len(sidx)
@@ -414,6 +414,10 @@ def check(tier, seed):
     exes = build_all(c, tier)
     report = Reporter(c)
     opts = {}
+    import time
+    tm = c.extra.setdefault("phase_wall_s", {}); t_ = [time.time()]
+    def lap(name): tm[name] = round(time.time() - t_[0], 1); t_[0] = time.time()
+    lap("prove+build")
     if ok and exes.get("c03"):
         exe = exes["c03"]
         corpus = [l for l in lib.corpus_cases(PID) if l.startswith(("T ", "X "))]
@@ -421,12 +425,18 @@ def check(tier, seed):
         cases = shim_cases(c.rng, tier)
         lines = corpus + [x[0] for x in cases]
         io = shim_experiment(c, exe, lines, tier, refok, report, opts, "random schedules")
-        # same graph, different schedules: total weights of an exact entry point must coincide (follows from minimality; cheap cross-check)
+        # same graph, different schedules / entry points: the total weight of every exact answer must coincide
         byg = {}
         for l, o in zip(lines, io):
             d = parse_case(l); a = parse_answer(o)
-            if a and d["alg"] in EXACT: byg.setdefault(gen.graph_tokens((d["n"], d["es"])), set()).add(a[0])
-        c.extra["graphs_with_several_schedules"] = sum(1 for v in byg.values() if len(v) >= 1)
+            if a and d["alg"] in EXACT: byg.setdefault(gen.graph_tokens((d["n"], d["es"])), []).append((a[0], l, o))
+        c.extra["graphs_run_under_several_schedules"] = sum(1 for v in byg.values() if len(v) >= 2)
+        for key, v in byg.items():
+            if len({x[0] for x in v}) > 1:
+                a, b = v[0], next(x for x in v if x[0] != v[0][0])
+                report("sched-dep", "exact entry points return different total weights on the same graph under different schedules: %s vs %s" % (a[0], b[0]),
+                       {"component": "c03", "case": b[1], "impl": b[2], "other_case": a[1], "other_impl": a[2]}, True)
+        lap("shim random schedules")
         if tier == "thorough":
             graphs = small_graphs(c.rng, 200)
             ex = exhaustive_cases(c, exe, graphs)
@@ -458,6 +468,7 @@ def check(tier, seed):
                         for b in ("", "1", "1101"): plines.append(tcase("signed_tbb", None, "D", 0, b, g, list(perm)))
             shim_experiment(c, exe, plines, tier, False, report, opts, "all push permutations for N <= 4")
             c.extra["push_permutation_runs"] = len(plines)
+            lap("shim exhaustive small")
     # ---- real TBB (runtime sampling) ------------------------------------------------------------------------------
     if exes.get("c03_real"):
         rc = real_cases(c.rng, tier)
@@ -471,6 +482,7 @@ def check(tier, seed):
             if why:
                 report("real", why + " [real oneTBB, %d workers]" % d["workers"], {"component": "c03_real", "case": l, "impl": o}, True)
         c.extra["real_tbb_runs"] = len(rlines)
+        lap("real TBB")
     # ---- ThreadSanitizer (race clause: runtime evidence, partial) -------------------------------------------------
     if tier == "thorough" and exes.get("c03_tsan"):
         tl = [x[0] for x in real_cases(c.rng, tier, tsan=True)]
@@ -487,6 +499,7 @@ def check(tier, seed):
         c.extra["tsan"] = {"runs": len(tl), "reports_seen": stats["reports_seen"], "reports_counted": len(found), "ignored": stats["ignored"],
                            "label": "runtime evidence, partial: libtbb is not instrumented; fork/join edges annotated in harness/c03_real.cpp; only conflicts "
                                     "between two parmcb task bodies are counted"}
+        lap("ThreadSanitizer")
     elif tier != "thorough":
         c.notes.append("ThreadSanitizer runs only in the thorough tier")
     if not refok:
